@@ -241,7 +241,7 @@ def gen_seq_dict_orders(rng, tier):
 
 
 def generate(rng, tier):
-    nu, na, ns, nf = (54, 2, 26, 1) if tier == "quick" else (200, 6, 100, 3)
+    nu, na, ns, nf = (54, 2, 26, 1) if tier == "quick" else (170, 5, 85, 3)
     sc = float(os.environ.get("VERIF_SCALE", "1"))      # <1 only for mutant trials on a loaded machine
     nu, na, ns, nf = max(8, int(nu * sc)), max(1, int(na * sc)), max(8, int(ns * sc)), max(1, int(nf * sc))
     out = [gen_unroll(rng, tier) for _ in range(nu)]
